@@ -283,6 +283,18 @@ def Engine.completeFailure (e : Engine) (id : Nat) (kind : String) : Engine × R
         | none => (e4, .ok)
         | some (idx, _) => (e4.emit idx (.err kind), .ok)
 
+/-- `ignore_user_initiated_disconnect` -/
+def ignoreUserDisconnect (r : Res) : Res :=
+  match r with
+  | .err "UserInitiatedDisconnect" => .ok
+  | other => other
+
+/-- the close handler's loops: fail each id, ignoring the DISCONNECT-completion error -/
+def Engine.failAllIgnoringDisconnect (e : Engine) (ids : List Nat) (kind : String) : Engine × Res :=
+  ids.foldl (fun (acc : Engine × Res) id =>
+    let (e', r) := acc.1.completeFailure id kind
+    (e', acc.2.fold (ignoreUserDisconnect r))) (e, .ok)
+
 /-- `complete_operation_sequence_as_failure` -/
 def Engine.failAll (e : Engine) (ids : List Nat) (kind : String) : Engine × Res :=
   ids.foldl (fun (acc : Engine × Res) id =>
@@ -452,7 +464,7 @@ def Engine.closeCurrent (e : Engine) : Engine × Res :=
           else if p.qos = 2 && o.pubrel.isSome then ({ e with highQ := id :: e.highQ }, .ok)
           else if passesPolicy o.packet e.cfg.policy then ({ e with userQ := id :: e.userQ }, .ok)
           else e.completeFailure id "OfflineQueuePolicyFailed"
-        | _ => e.completeFailure id "ConnectionClosed"
+        | _ => let (e', r') := e.completeFailure id "ConnectionClosed"; (e', ignoreUserDisconnect r')
       -- `?`: on error the function returns before `current_operation = None`
       if r.isOk then ({ e1 with current := none }, .ok) else (e1, r)
 
@@ -503,13 +515,13 @@ def Engine.handleClosed (e : Engine) : Engine × Res :=
           let hq := e3.highQ
           let e4 := { e3 with highQ := [] }
           let failures := hq.filter (fun id => match e4.op? id with | some o => o.pubrel.isNone | none => true)
-          let (e5, ra) := e4.failAll failures "ConnectionClosed"
+          let (e5, ra) := e4.failAllIgnoringDisconnect failures "ConnectionClosed"
           -- operations written but not flushed
           let wc := e5.pendingWC
           let e6 := { e5 with pendingWC := [] }
           let (retained, rejected) := e6.partitionByPolicy wc
           let e7 := { e6 with userQ := e6.userQ ++ retained }
-          let (e8, rb) := e7.failAll rejected "OfflineQueuePolicyFailed"
+          let (e8, rb) := e7.failAllIgnoringDisconnect rejected "OfflineQueuePolicyFailed"
           let (e9, rc) := e8.failExceeding
           -- unacked QoS1+ publishes: DUP, to the back of the resubmit queue
           let pubs := e9.pendingPub.map (·.2)
@@ -944,7 +956,7 @@ def Engine.serviceKeepAlive (e : Engine) : Engine × Res :=
           | none => (e2, .panic "unwrap_settings@service_keep_alive")
           | some s =>
             let ka := s.serverKeepAlive
-            let e3 := { e2 with pingDeadline := some (e.now + min e.cfg.pingTimeout ((ka / 2) * 1000)) }
+            let e3 := { e2 with pingDeadline := some (e.now + min e.cfg.pingTimeout (ka * 500)) }
             (if ka > 0 then { e3 with nextPing := some (e.now + ka * 1000) } else e3, .ok)
       else (e, .ok)
     | none => (e, .ok)
@@ -961,7 +973,8 @@ def Engine.processAckTimeouts : Nat → Engine → Engine × Res
     match e.nextAckTimeout with
     | none => (e, .ok)
     | some (id, deadline) =>
-      if deadline ≤ e.now then
+      -- the operation being written is not timed out until its packet is complete
+      if deadline ≤ e.now && e.current != some id then
         let e1 := { e with timeouts := e.timeouts.erase (id, deadline) }
         let (e2, r) := e1.completeFailure id "AckTimeout"
         let (e3, r3) := Engine.processAckTimeouts fuel e2
@@ -1004,6 +1017,7 @@ def minOpt (a b : Option Nat) : Option Nat :=
 /-- `get_next_service_timepoint_protocol_queue` -/
 def Engine.nextQueueTime (e : Engine) (all : Bool) : Option Nat :=
   if e.pendingWrite then none
+  else if e.current.isSome then some e.now      -- a partially encoded operation wants service at once
   else if !e.highQ.isEmpty then some e.now
   else if all then
     if e.slowStartThrottled && e.hasPendingAck then none
@@ -1039,14 +1053,18 @@ def Engine.nextServiceTime (e : Engine) : Option (Option Nat) :=
      | some d => some (foldTime (e.nextQueueTime false) d))
   | .connected =>
     let t0 := minOpt none e.pingDeadline
-    let t1 := match e.nextAckTimeout with | some (_, d) => foldTime t0 d | none => t0
+    let t1 := match e.nextAckTimeout with
+      | some (id, d) => if e.current != some id then foldTime t0 d else t0
+      | none => t0
     if e.pendingWrite then some t1
     else
       let t2 := minOpt t1 e.nextPing
       some (minOpt (e.nextQueueTime true) t2)
   | .pendingDisconnect =>
     let t0 := e.nextQueueTime false
-    some (match e.nextAckTimeout with | some (_, d) => foldTime t0 d | none => t0)
+    some (match e.nextAckTimeout with
+      | some (id, d) => if e.current != some id then foldTime t0 d else t0
+      | none => t0)
   | .halted => some none
 
 /-! ### reset -/
